@@ -77,6 +77,13 @@ class World(object):
             return rec("terms", ts=[term_io.export(o) for o in out], fresh=fresh), out
         return rec("text", s=str(out)), out
 
+    @staticmethod
+    def _outcome(fn):
+        try:
+            return "returns:%s" % fn()
+        except Exception as ex:
+            return "raises:" + type(ex).__name__
+
     def _all_syms(self, f):
         seen, out, stack = set(), set(), [f]
         while stack:
@@ -181,6 +188,11 @@ class World(object):
         m, s = self.m, self.s
         x, y, p, q = s["x"], s["y"], s["p"], s["q"]
         return [
+            # first, before any probe creates further constants: whether an invalid spelling is rejected must not
+            # depend on an equal valid constant having been built earlier (2.0 == 2, True == 1)
+            ("invalid constant spellings", lambda: self._call(lambda: " ".join(self._outcome(fn) for fn in (
+                lambda: m.Int(2.0), lambda: m.Int(0.0), lambda: m.Int(False), lambda: m.Int(Fraction(2)), lambda: m.Int(True), lambda: m.Real(True), lambda: m.Int(7.0),
+                lambda: m.Real("2"))), "text"), False),
             ("subst {x:0} phi1", lambda: self._call(lambda: self.phi1.substitute({x: m.Int(0)})), True),
             ("subst {y:x+1,p:q} phi4", lambda: self._call(lambda: self.phi4.substitute({y: m.Plus(x, m.Int(1)), p: q})), True),
             ("simplify(phi2)", lambda: self._call(lambda: self.phi2.simplify()), True),
